@@ -109,6 +109,27 @@ pub mod verif_proofs {
         std::mem::forget((rm, removed, ba, fs, s));
     }
 
+    /// quick-tier merge check: two single-secret bundles merged in both orders (colliding timestamps
+    /// included): latest is the maximum by (timestamp, id) and independent of the merge order.
+    #[cfg_attr(kani, kani::proof)]
+    #[cfg_attr(kani, kani::unwind(6))]
+    #[cfg_attr(kani, kani::stub(GroupSecret::id, id_stub))]
+    pub fn latest_after_merging_two_bundles() {
+        let s = three_secrets();
+        let a = SecretBundle::insert(SecretBundle::init(), s[0].clone());
+        let b = SecretBundle::insert(SecretBundle::init(), s[1].clone());
+        let a2 = SecretBundle::insert(SecretBundle::init(), s[0].clone());
+        let b2 = SecretBundle::insert(SecretBundle::init(), s[1].clone());
+        let ab = SecretBundle::extend(a, b);
+        let ba = SecretBundle::extend(b2, a2);
+        let refs: [&GroupSecret; 2] = [&s[0], &s[1]];
+        let want = reference_latest(&refs);
+        witness!(s[0].timestamp() == s[1].timestamp(), "witness: colliding timestamps");
+        vassert!(key(ab.latest()) == key(want), "C36.latest-merge-two: after merging two bundles latest is the maximum by (timestamp, id)");
+        vassert!(key(ba.latest()) == key(ab.latest()), "C36.latest-merge-two-order: latest does not depend on the merge order");
+        std::mem::forget((ab, ba, s));
+    }
+
     fn generate_case(allow_max: bool) {
         let s = three_secrets();
         let n = sym::any_below(3); // 0..=2 secrets in the bundle
@@ -177,6 +198,7 @@ pub mod verif_proofs {
         match name {
             "data_scheme::group_secret::verif_proofs::latest_is_max_for_every_insertion_order" => latest_is_max_for_every_insertion_order(),
             "data_scheme::group_secret::verif_proofs::latest_after_merge_from_secrets_and_remove" => latest_after_merge_from_secrets_and_remove(),
+            "data_scheme::group_secret::verif_proofs::latest_after_merging_two_bundles" => latest_after_merging_two_bundles(),
             "data_scheme::group_secret::verif_proofs::generate_is_newer" => generate_is_newer(),
             "data_scheme::group_secret::verif_proofs::generate_with_maximal_latest_timestamp" => generate_with_maximal_latest_timestamp(),
             _ => return false,
